@@ -105,7 +105,9 @@ func runEngineCombo(k engineCombo) (keySuffix, what, stack string) {
 			}
 			return inv, k.c.err
 		}}
-	recording := &scankit.Ex{N: "c02/recording", Req: scankit.ReqBase("good.txt")}
+	// the recording extractor also requires the bad file itself: what another extractor returned for a file
+	// must not keep the remaining extractors from being run on that same file
+	recording := &scankit.Ex{N: "c02/recording", Req: scankit.ReqBase("good.txt", "bad.dat")}
 	exs := []filesystem.Extractor{recording, failing}
 	if k.badFirstEx {
 		exs = []filesystem.Extractor{failing, recording}
@@ -126,7 +128,13 @@ func runEngineCombo(k engineCombo) (keySuffix, what, stack string) {
 	}
 	goodPkg := false
 	okPkgs := map[string]bool{}
+	sameFile := 0
 	for _, pk := range sr.Inventory.Packages {
+		for _, d := range k.badDirs {
+			if pk.Name == "c02/recording|"+d+"/bad.dat" {
+				sameFile++
+			}
+		}
 		if pk.Name == "c02/recording|m/good.txt" {
 			goodPkg = true
 		}
@@ -142,6 +150,8 @@ func runEngineCombo(k engineCombo) (keySuffix, what, stack string) {
 	switch {
 	case !goodPkg || status["c02/recording"] == nil || status["c02/recording"].Status != plugin.ScanStatusSucceeded || status["c02/failing"] == nil:
 		return "scan-aborted", "the failure of one extractor on one file was not confined (the scan's context was alive): " + obs, ""
+	case sameFile != len(k.badDirs):
+		return "other-extractors-skipped-for-the-same-file", fmt.Sprintf("the recording extractor also requires bad.dat but reported %d of %d packages for it: what one extractor returns for a file must not stop the remaining extractors from seeing that file: %s", sameFile, len(k.badDirs), obs), ""
 	case len(okPkgs) != 2:
 		return "other-files-of-failing-extractor-skipped", fmt.Sprintf("the failing extractor's healthy files b/ok.dat and y/ok.dat were not both extracted (got %v): a failure on one file must not stop the extractor from being run on its other files: %s", keysOf(okPkgs), obs), ""
 	case k.c.err != nil && status["c02/failing"].Status != plugin.ScanStatusFailed && status["c02/failing"].Status != plugin.ScanStatusPartiallySucceeded:
